@@ -11,6 +11,11 @@ type Pool struct {
 	ctx    context.Context
 	cancel context.CancelFunc
 
+	// lifeM orders every Send against the life-cycle changes of Run and Stop: a Send is
+	// either counted by sendWg before Stop starts to wait, or it sees the cancelled
+	// context and leaves; Run replaces ctx and ch only while no Send is reading them.
+	lifeM sync.RWMutex
+
 	runM      sync.Mutex
 	stopM     sync.Mutex
 	lazySendM sync.Mutex
